@@ -119,7 +119,14 @@ class EllipticalArc(NamedTuple):
         elif theta_arc > 0 and not self.sweep:
             theta_arc -= TWO_PI
 
-        center_point = point_transform.inverse().map_point(center_point)
+        # map back with the explicit inverse: Affine2D.inverse() reports matrices with
+        # a tiny determinant (here 1 / (rx * ry)) as degenerate
+        center_point = (
+            Affine2D.identity()
+            .rotate(angle)
+            .scale(self.rx, self.ry)
+            .map_point(center_point)
+        )
 
         return CenterParametrization(theta1, theta_arc, center_point)
 
